@@ -970,16 +970,39 @@ func (c *Ctx) checkGoroutines() {
 		lt, _ := c.Trace(loop, TraceConfig{Inline: c.laneInline()})
 		usesWG := false
 		okDone := true
+		addInLoop := false
 		for _, t := range lt {
 			done := 0
-			for _, e := range t.Events {
+			for i, e := range t.Events {
 				if e.Kind == EvCall && e.callName() == "(*sync.WaitGroup).Done" {
 					done++
 					usesWG = true
 				}
+				if e.Kind == EvCall && e.callName() == "(*sync.WaitGroup).Add" && !addInLoop {
+					addInLoop = true
+					c.violated("C14.goroutines", cons, e.Pos, "the consumer loop registers itself with WaitGroup.Add after it has been started: an owner's Wait that runs before the goroutine is scheduled returns while the lane is alive and accepted calls are still queued (Add must precede the go statement)", c.witness(t, i)...)
+				}
 			}
 			if (t.End == EndReturn || t.End == EndPanic) && usesWG && done != 1 {
 				okDone = false
+			}
+		}
+		if en.typ == "Line" && usesWG && ok {
+			// the loop's deferred Done needs its Add in Run, before the go statement
+			for _, t := range traces {
+				gos, adds := 0, 0
+				for _, e := range t.Events {
+					if e.Kind == EvGo && !e.Gen {
+						gos++
+					}
+					if e.Kind == EvCall && e.callName() == "(*sync.WaitGroup).Add" && !e.Gen && gos == 0 {
+						adds++
+					}
+				}
+				if gos != adds && ok {
+					ok = false
+					c.violated("C14.goroutines", cons, run.Pos(), fmt.Sprintf("the loop calls WaitGroup.Done but Run registers %d Add before starting %d loop(s): the counter goes negative or Wait returns early", adds, gos), c.witness(t, len(t.Events)-1)...)
+				}
 			}
 		}
 		runHasAdd := false
